@@ -238,7 +238,9 @@ func (g *Registrar) Check(method string, r Route) (Verdict, string) {
 		return Either, why
 	}
 	if twin {
-		return Either, "optional-twin"
+		// "/a/?b" next to "/a/b": the long form of the one is the other, i.e. the
+		// same route is already registered (the router used to accept it, F12)
+		return MustReject, "optional-twin"
 	}
 	if soft {
 		return Either, "matchall-leaf-vs-subtree"
